@@ -35,10 +35,11 @@ func ruleTBLock(r *core.Reporter) {
 	// which functions are only ever called with the lock held (caller-holds)?
 	callerHolds := map[*ssa.Function]string{}
 	for _, callee := range fns {
-		if callee.Signature.Recv() == nil {
+		// a method of the bucket / the manager, or a plain function taking one as its first parameter
+		if len(callee.Params) == 0 {
 			continue
 		}
-		if tn := ir.TypeName(callee.Signature.Recv().Type()); tn != tBucket && tn != tManager {
+		if tn := ir.TypeName(callee.Params[0].Type()); tn != tBucket && tn != tManager {
 			continue
 		}
 		all, any := true, false
@@ -874,7 +875,8 @@ func ruleBMFeedback(r *core.Reporter) {
 		// host argument is passed through to getBucket
 		okHost := false
 		allInstrs(fn, func(in ssa.Instruction) {
-			if c, ok := in.(*ssa.Call); ok && ir.IsCallTo(c, "(*"+pkgRL+".BucketManager).getBucket") && len(c.Call.Args) == 2 && ir.SameValue(c.Call.Args[1], fn.Params[1]) {
+			gbFn := p.Func(rel(pkgRL), "(*BucketManager).getBucket") // follows a method ↔ function conversion
+			if c, ok := in.(*ssa.Call); ok && (ir.IsCallTo(c, "(*"+pkgRL+".BucketManager).getBucket") || (gbFn != nil && c.Call.StaticCallee() == gbFn)) && len(c.Call.Args) == 2 && ir.SameValue(c.Call.Args[1], fn.Params[1]) {
 				okHost = true
 			}
 		})
